@@ -43,7 +43,7 @@ def files(names):
 def program():
     P = {'n': 'P', 'fields': [['x', I], ['s', U]]}
     Q = {'n': 'Q', 'base': 'P', 'fields': [['q', I]]}
-    W = {'n': 'W', 'fields': [['w', ['p', 'Unicode', {'pa_soap11': {'sub_name': 'renamed'}}]], ['v', ['p', 'Integer', {'pa_soap11': {'exc': True}}]], ['u', U]]}
+    W = {'n': 'W', 'ns': 'urn:vf:w', 'fields': [['w', ['p', 'Unicode', {'pa_soap11': {'sub_name': 'renamed'}}]], ['v', ['p', 'Integer', {'pa_soap11': {'exc': True}}]], ['u', U]]}
     ms = [{'n': 'echo', 'args': [['a', I], ['s', U]], 'ret': U},
           {'n': 'other', 'args': [['p', ['c', 'P', {}]]], 'ret': ['c', 'P', {}]},
           {'n': 'strict', 'args': [['n', ['p', 'Integer', {'ge': 0, 'le': 9}]], ['t', ['p', 'Unicode', {'max_len': 6}]]], 'ret': I},
@@ -100,6 +100,10 @@ DRIVERS = {
     # the dict-document family (JSON, positional objects): per-protocol caches of field order and attributes
     'json-ordered|json-ordered': (['jo1', 'jo2'], None, False, ['protocol/_base.py', 'server/wsgi.py'], JSONF, 'json'),
     'json-ordered|json-rpc': (['jo1', 'je1'], 'soft', False, ['protocol/_base.py', 'server/wsgi.py'], JSONF, 'json'),
+    # the first ?wsdl request and the first schema-validated call of a fresh application (types in two namespaces): both
+    # work on the application's schema document objects
+    'wsdl|rpc-lxml': (['wsdl', 'echo1'], 'lxml', False, ['interface/xml_schema/_base.py', 'interface/wsdl/wsdl11.py', 'server/wsgi.py', 'protocol/xml.py'],
+                      RPC + ['interface/xml_schema/_base.py', 'interface/wsdl/wsdl11.py']),
     # plain XmlDocument as in and out protocol (its own request path: parser, document, envelope-less decomposition)
     'xml|xml': (['xe1', 'xe2'], None, False, ['protocol/xml.py', 'server/wsgi.py'], RPC, 'xml'),
     'xml-malformed|xml': (['xbad', 'xe1'], None, False, ['protocol/xml.py', 'server/wsgi.py'], RPC, 'xml'),
